@@ -9,10 +9,14 @@
            under paused time; after every I/O call the crash image is recovered with the REAL
            WalRotator::recover_all_entries.
 4. TV    : WalTrace validates every event (ack only inside a synced prefix, recovery = Recover).
+5. Policy: WalPolicy.tla (checks/wal_policy.py) - the always-mode obligation with SyncTick, TruncateUpTo and
+           Shutdown messages among the writes; the EverySecond / No policies ride along as an extension
+           (their observations never count as a verdict on C09).
 """
 import os
 from lib import vlib
 from lib.vlib import Report
+from checks import wal_policy
 
 PID = "C09"
 
@@ -62,6 +66,8 @@ def run(tier):
     runs, bad = vlib.validate_runs(rep, "WalTrace", "WalTrace", tr, wd, "special", describe=describe)
     nontrivial += len(runs)
     os.remove(tr)
+    fam = wal_policy.run_family(rep, wd, tier, PID, mc=True)
+    nontrivial += fam["runs"]
     rep.cov["distinct_nontrivial"] = nontrivial
     rep.cov["rule"] = ("a case is one run of the real always-fsync actor (bursts of concurrent write_durable calls, file "
                        "capacity, batch limit, scripted faults); non-trivial = at least one injected fault took effect and "
@@ -71,5 +77,5 @@ def run(tier):
     rep.cov["explanation"] = "exhaustive over the SimWal scenario space for the listed constants; random runs are samples"
     rep.assumptions += ["a crash discards exactly the bytes not covered by a successful fsync of their file",
                         "an append that reports success stored all its bytes; a torn append stores a prefix and reports an error",
-                        "WAL truncation is not part of these runs (entries moved to the object store are outside C09)"]
+                        "an entry removed by a TruncateUpTo the caller asked for (stamp <= threshold) is outside C09; whether the truncation was allowed is C10's rule"]
     return rep.finish()
